@@ -262,6 +262,9 @@ class Reader:
         """:return: number of samples"""
         if self.meta is None:
             return self._ns
+        if self.meta.get("fileTimeSecs") is None:
+            # interrupted or ongoing acquisition: no duration in the metadata, count complete frames
+            return int(self.nbytes // (self.dtype.itemsize * self.nc))
         return int(np.round(self.meta.get("fileTimeSecs") * self.fs))
 
     @property
